@@ -177,6 +177,10 @@ func checkC13(c *Ctx) {
 		}
 	}
 
+	c.rule("C13.e", "the mailbox snapshot handed out by Mailbox() is never mutated: every store through Client.mailbox follows a copy in the same critical section", 4)
+	ruleSnapshotCopyOnWrite(c, "C13.e")
+	c.rule("C13.f", "continuation requests are matched first-in first-out", 2)
+	ruleContReqFIFO(c, "C13.f")
 	rulePublication(c, "C13.b", la, guards, clientGuard)
 	ruleCommandEncoderPairing(c, "C13.c")
 	ruleCompletionPairing(c, "C13.d", la, clientGuard)
@@ -573,4 +577,127 @@ func checkRemovalCompletes(c *Ctx, rule string, fn *ssa.Function, removal *ssa.C
 	if nret == 0 {
 		c.undecided(rule, fnKey(fn)+":after removal", removal.Pos(), "no return reachable from the removal")
 	}
+}
+
+// ruleSnapshotCopyOnWrite: Client.Mailbox() returns the *SelectedMailbox
+// pointer itself ("the returned struct must not be mutated"); the reader
+// goroutine therefore must never write through that pointer: each store into a
+// field of the object reached through Client.mailbox is dominated, in the same
+// function, by a store of a fresh copy into Client.mailbox.
+func ruleSnapshotCopyOnWrite(c *Ctx, rule string) {
+	p := c.P
+	n := 0
+	for _, fn := range p.SrcFuncs("imapclient") {
+		var fresh []*ssa.Store
+		allInstrs(fn, func(i ssa.Instruction) {
+			st, ok := i.(*ssa.Store)
+			if !ok {
+				return
+			}
+			if r, ok := fieldOf(st.Addr); ok && r.is("Client", "mailbox") {
+				switch v := st.Val.(type) {
+				case *ssa.Call:
+					if callKey(v) == "(*SelectedMailbox).copy" {
+						fresh = append(fresh, st)
+					}
+				case *ssa.Alloc:
+					fresh = append(fresh, st)
+				}
+			}
+		})
+		allInstrs(fn, func(i ssa.Instruction) {
+			st, ok := i.(*ssa.Store)
+			if !ok {
+				return
+			}
+			fa, ok := st.Addr.(*ssa.FieldAddr)
+			if !ok {
+				return
+			}
+			r, _ := fieldOf(fa)
+			if r.Owner == nil || r.Owner.Obj().Name() != "SelectedMailbox" {
+				return
+			}
+			// the object written: reached through a load of Client.mailbox?
+			lr, viaClient := loadedField(fa.X)
+			if !viaClient || !lr.is("Client", "mailbox") {
+				if _, isAlloc := fa.X.(*ssa.Alloc); isAlloc {
+					return // a local/new object being built
+				}
+				if call, ok := fa.X.(*ssa.Call); ok && callKey(call) == "(*SelectedMailbox).copy" {
+					return
+				}
+				return
+			}
+			n++
+			key := fmt.Sprintf("%s:store SelectedMailbox.%s#%d", fnKey(fn), r.Field.Name(), countKey(c, rule, fnKey(fn)+":store SelectedMailbox."+r.Field.Name())+1)
+			dominated := false
+			for _, f := range fresh {
+				if precedes(f, st) {
+					// no unlock between the copy and the store: same block chain is enough here
+					dominated = true
+				}
+			}
+			c.check(dominated, rule, key, st.Pos(), "preceded by `c.mailbox = copy` in the same function: the published snapshot stays immutable",
+				"the object currently published through Client.Mailbox() is modified in place: a goroutine holding the snapshot reads it without any lock (data race, and the snapshot silently changes)")
+		})
+	}
+	if n == 0 {
+		c.unresolvedRoot("stores through Client.mailbox")
+	}
+}
+
+// ruleContReqFIFO: continuation requests are appended at the tail when
+// registered and taken from index 0 when the server's "+" arrives.
+func ruleContReqFIFO(c *Ctx, rule string) {
+	p := c.P
+	reg := p.Func("imapclient", "Client", "registerContReq")
+	rd := p.Func("imapclient", "Client", "readContinueReq")
+	if reg == nil || rd == nil {
+		c.unresolvedRoot("registerContReq / readContinueReq")
+		return
+	}
+	appends := false
+	allInstrs(reg, func(i ssa.Instruction) {
+		if st, ok := i.(*ssa.Store); ok {
+			if r, ok := fieldOf(st.Addr); ok && r.is("Client", "contReqs") {
+				if call, ok := st.Val.(*ssa.Call); ok {
+					if b, ok := call.Call.Value.(*ssa.Builtin); ok && b.Name() == "append" {
+						if lr, ok := loadedField(call.Call.Args[0]); ok && lr.is("Client", "contReqs") {
+							appends = true
+						}
+					}
+				}
+			}
+		}
+	})
+	c.check(appends, rule, "registerContReq appends at the tail", reg.Pos(), "c.contReqs = append(c.contReqs, …)", "continuation requests are no longer queued at the tail")
+	// the request handed the server's "+": element 0 of c.contReqs
+	head := false
+	var pos = rd.Pos()
+	allInstrs(rd, func(i ssa.Instruction) {
+		ia, ok := i.(*ssa.IndexAddr)
+		if !ok {
+			return
+		}
+		lr, ok := loadedField(ia.X)
+		if !ok || !lr.is("Client", "contReqs") {
+			return
+		}
+		// is this element's ContinuationRequest the one that gets Done()?
+		for _, ref := range *ia.Referrers() {
+			if fa, ok := ref.(*ssa.FieldAddr); ok {
+				if r, _ := fieldOf(fa); r.Field.Name() == "ContinuationRequest" {
+					pos = ia.Pos()
+					if k, ok := constInt(ia.Index); ok && k == 0 {
+						head = true
+					} else {
+						head = false
+					}
+				}
+			}
+		}
+	})
+	c.check(head, rule, "readContinueReq takes the oldest request", pos, "the continuation goes to c.contReqs[0]",
+		"the server's continuation request is not given to the oldest waiting command: with two commands waiting, the wrong one sends its payload and the other waits for ever")
 }
